@@ -78,5 +78,25 @@ PROPS["C16"] = {
     "assumptions": ["0 <= t < 100 h (24 h for STL)"],
 }
 
+
+PROPS["C17"] = {
+    "level_text": "Machine-checked Lean theorems over a model of bufio.Scanner driven by the package's split function, for every delivery schedule (any chunk sizes, zero-length reads, data-with-EOF) and every byte string: unless the run hits the scanner's own limits, the tokens are exactly the lines of the bytes (LF, CRLF, lone CR), so every line-based reader - any function of the scanned lines and the scanner error - returns the same result for any two deliveries of the same bytes; the repaired split function waits for more data on a trailing CR while the pinned one produced a spurious empty line (witness); io.ReadFull block reads and the whole STL block structure depend on the bytes only. Tied to /repo by lib.scanner (effective schedules replayed in the model, incl. the 64 KiB and 100-empty-read limits) and by io.sched (all five stream readers under every single split point, one-byte, half, random, aligned and data-with-EOF schedules, valid and mutated documents, compared with the all-at-once result).",
+    "level_note": "Trusted: Lean kernel; hand-written scanner/ReadFull models and their tie. TTML (encoding/xml) and teletext (go-astits) delegate buffering to libraries: for those the property is decided by the io.sched correspondence stream only (translation validation); the teletext reader is exercised under C06/C08. Pinned defects D1 (CR/LF split) and D2 (single Read per STL block) repaired by fix: commits.",
+    "technique": "Lean 4 proof (outer induction on the schedule, inner strong induction on pending bytes; token stability under data extension) + differential correspondence under harness-controlled io.Reader wrappers",
+    "props": ["Astisub.Props.C17"],
+    "streams": [{"name": "lib.scanner", "needs_hooks": True}, {"name": "io.sched"}],
+    "trust": ["model: Go.scan mirrors bufio.Scanner.Scan (buffer limit 65536, 100 empty reads, error latching) with the split function of newScanner; IO.readFull mirrors io.ReadFull"],
+    "assumptions": ["runs of zero-length reads shorter than 100; lines shorter than 64 KiB (otherwise the scanner's own error, see C18)"],
+}
+PROPS["C18"] = {
+    "level_text": "Machine-checked Lean theorems: a stream that ends in a non-EOF error leaves the scanner with a non-nil error for every schedule and fault offset, so a line-based reader that checks it (the repaired code) never returns a value, while the pinned readers provably swallowed it; a reader returns a value only if the stream ended in EOF and then it is the parse of all lines of all bytes (no partial success); a document with a line longer than the scanner's 64 KiB buffer always ends in an error; the STL block loop never ends cleanly on a faulting stream; a writer made of any sequence of Write calls reports an error iff the destination fails before the document is complete, and success means the complete document was delivered. Tied to /repo by io.fault (every fault offset of representative documents of five formats, lines of 2^16..2^20 bytes), io.wfault (every fault offset of five writers' output), io.file and lib.scanner.",
+    "level_note": "Trusted: Lean kernel; scanner / ReadFull / Write-sequence models and their tie. TTML and teletext fault propagation is decided by correspondence only. Pinned defect D3 (scanner.Err() never consulted) and D4 (panic on a truncated timing line) repaired by fix: commits.",
+    "technique": "Lean 4 proof (fault latching invariant of the scanner model, token-length bound, take/drop characterisation of Write sequences) + fault-injecting io.Reader/io.Writer correspondence",
+    "props": ["Astisub.Props.C18"],
+    "streams": [{"name": "lib.scanner", "needs_hooks": True}, {"name": "io.fault"}, {"name": "io.wfault"}, {"name": "io.file"}],
+    "trust": ["model: IO.lineReader is the common shape of ReadFromSRT/WebVTT/SSA; IO.writeAll is a sequence of Write calls"],
+    "assumptions": ["TTML: fault offsets up to the end of the root element"],
+}
+
 NOT_APPLICABLE = {p: "not built yet in this session (work in progress; see DESIGN.md section 11 for the build order)" for p in
-                  ["C01","C02","C03","C04","C05","C06","C07","C08","C15","C17","C18","C19","C20"]}
+                  ["C01","C02","C03","C04","C05","C06","C07","C08","C15","C19","C20"]}
